@@ -352,6 +352,39 @@ pub fn exec(op: &str, a: &[u64]) -> Result<Outcome, String> {
             o.check(status.code() == Some(0), "piped map of a processing function with an ordinary stack need is not the sequential map (worker threads died or the output differs)");
             Ok(o)
         }
+        "pipemany" => {
+            // `p` pipes of `w` workers each over long inputs are created, started and left idle (their workers block
+            // in `send` or wait for their turn); a pipe created after them must still be the sequential map and end:
+            // pipes share nothing.  p * w is chosen above the number of CPUs (a shared worker pool of that size would
+            // be exhausted by the idle pipes).  Runs in a child process; a watchdog replaces "never ends".
+            let p = r.usize()?;
+            let w = r.usize()?;
+            let n = r.usize()?;
+            r.end()?;
+            let exe = std::env::current_exe().map_err(|e| e.to_string())?;
+            let mut child = std::process::Command::new(exe)
+                .args(["many-child", &p.to_string(), &w.to_string(), &n.to_string()])
+                .stdout(std::process::Stdio::null())
+                .stderr(std::process::Stdio::null())
+                .spawn()
+                .map_err(|e| e.to_string())?;
+            let start = std::time::Instant::now();
+            let status = loop {
+                if let Some(s) = child.try_wait().map_err(|e| e.to_string())? {
+                    break Some(s);
+                }
+                if start.elapsed() > Duration::from_secs(90) {
+                    child.kill().ok();
+                    child.wait().ok();
+                    break None;
+                }
+                std::thread::sleep(Duration::from_millis(5));
+            };
+            let mut o = Outcome::new(format!("ok {n}"));
+            o.check(status.is_some(), "a pipe created while other pipes are idle yields nothing and never ends (the pipes are not independent)");
+            o.check(status.map(|s| s.code() == Some(0)).unwrap_or(true), "a pipe created while other pipes are idle is not the sequential map");
+            Ok(o)
+        }
         "pipeidle" => {
             // free-running Pipe (real OS schedule) over a long upstream whose length is visible (sized = 1: exact
             // size hint) or hidden (sized = 0: behind a filter): consume k items, let the workers run ahead while the
@@ -469,7 +502,9 @@ pub fn exec(op: &str, a: &[u64]) -> Result<Outcome, String> {
             o.check(exited, "buffer thread did not exit after the consumer dropped the iterator");
             Ok(o)
         }
-        "pipepanic" | "pipepanic2" => {
+        "pipepanic" | "pipepanic2" | "pipepanic3" => {
+            // pipepanic3: the panicking pipe was created while an older pipe was alive, and the older pipe is dropped
+            // before the panic (the hand-over between two epochs of a loader)
             // pipepanic2: the panicking pipe is created after a healthy pipe and after another component replaced
             // the process-wide panic hook
             let w = r.usize()?;
@@ -478,7 +513,7 @@ pub fn exec(op: &str, a: &[u64]) -> Result<Outcome, String> {
             r.end()?;
             let exe = std::env::current_exe().map_err(|e| e.to_string())?;
             let mut child = std::process::Command::new(exe)
-                .args([if op == "pipepanic" { "panic-child" } else { "panic-child-later" }, &w.to_string(), &n.to_string(), &j.to_string()])
+                .args([if op == "pipepanic" { "panic-child" } else if op == "pipepanic2" { "panic-child-later" } else { "panic-child-handover" }, &w.to_string(), &n.to_string(), &j.to_string()])
                 .stdout(std::process::Stdio::null())
                 .stderr(std::process::Stdio::null())
                 .spawn()
@@ -524,6 +559,27 @@ pub fn panic_child_later(w: usize, n: usize, j: usize) -> ! {
     panic_child(w, n, j)
 }
 
+/// like `panic_child`, but the pipe is created while an older pipe is alive (and in use), and the older pipe is
+/// dropped before the younger one is iterated: process-wide state (the panic hook) must not depend on the order in
+/// which pipes are dropped
+pub fn panic_child_handover(w: usize, n: usize, j: usize) -> ! {
+    let healthy: Arc<dyn Fn(u64) -> u64 + Send + Sync> = Arc::new(f);
+    let mut older = (0..1000u64).pipe(healthy, 2);
+    if older.next() != Some(f(0)) {
+        std::process::exit(8);
+    }
+    let pipeline: Arc<dyn Fn(u64) -> u64 + Send + Sync> = Arc::new(move |x| {
+        if x as usize == j {
+            panic!("injected panic at item {j}");
+        }
+        f(x)
+    });
+    let younger = (0..n as u64).pipe(pipeline, w as u8);
+    drop(older);
+    let out: Vec<u64> = younger.collect();
+    std::process::exit(if out.len() == n { 0 } else { 7 })
+}
+
 pub fn panic_child(w: usize, n: usize, j: usize) -> ! {
     let pipeline: Arc<dyn Fn(u64) -> u64 + Send + Sync> = Arc::new(move |x| {
         if x as usize == j {
@@ -567,6 +623,24 @@ pub fn deep_child(w: usize, n: usize, kib: u64) -> ! {
         .unwrap();
     let pipeline: Arc<dyn Fn(u64) -> u64 + Send + Sync> = Arc::new(move |x| f_deep(x, kib));
     let out: Vec<u64> = (0..n as u64).pipe(pipeline, w as u8).collect();
+    std::process::exit(if out == want { 0 } else { 7 })
+}
+
+/// child process of `pipemany`
+pub fn many_child(p: usize, w: usize, n: usize) -> ! {
+    let fun: Arc<dyn Fn(u64) -> u64 + Send + Sync> = Arc::new(f);
+    let mut idle = vec![];
+    for k in 0..p {
+        let mut it = (0..100_000u64).pipe(fun.clone(), w as u8);
+        // started: one item consumed, the rest left to back-pressure
+        if it.next() != Some(f(0)) {
+            std::process::exit(8 + (k as i32 % 2));
+        }
+        idle.push(it);
+    }
+    std::thread::sleep(Duration::from_millis(50));
+    let out: Vec<u64> = (0..n as u64).pipe(fun.clone(), w.max(1) as u8).collect();
+    let want: Vec<u64> = (0..n as u64).map(f).collect();
     std::process::exit(if out == want { 0 } else { 7 })
 }
 
@@ -701,6 +775,14 @@ pub fn run_c05(ctx: &mut Ctx) {
             ctx.case("pipeslow", &[w, n, j, ms]);
         }
     }
+    // many pipes alive at once (more workers than CPUs), the last one must not depend on the others
+    if ctx.first_shard() {
+        let cpus = std::thread::available_parallelism().map(|x| x.get() as u64).unwrap_or(16);
+        let many: &[(u64, u64)] = if ctx.thorough { &[(1, 300), (4, 300), (2, 1000)] } else { &[(2, 300)] };
+        for &(w, n) in many {
+            ctx.case("pipemany", &[(cpus + 4 + w - 1) / w + 1, w, n]);
+        }
+    }
     // a processing function with a deep (but ordinary) stack need, in a child process
     if ctx.first_shard() {
         let deepc: &[(u64, u64, u64)] = if ctx.thorough { &[(0, 20, 600), (1, 20, 600), (4, 40, 900), (2, 30, 400)] } else { &[(0, 12, 600), (3, 24, 600)] };
@@ -773,9 +855,11 @@ pub fn run_c09(ctx: &mut Ctx) {
         let w = ctx.rng.random_range(1..=4u64);
         let n = ctx.rng.random_range(1..=30u64);
         let j = ctx.rng.random_range(0..=n + 1);
-        ctx.case(if i % 3 == 2 { "pipepanic2" } else { "pipepanic" }, &[w, n, j]);
+        ctx.case(["pipepanic", "pipepanic3", "pipepanic2"][i as usize % 3], &[w, n, j]);
     }
     if ctx.first_shard() {
         ctx.case("pipepanic2", &[2, 12, 5]);
+        ctx.case("pipepanic3", &[2, 12, 5]);
+        ctx.case("pipepanic3", &[3, 40, 0]);
     }
 }
